@@ -38,7 +38,7 @@ def run(ctx):
     ctx.level = "model_checking"
     ctx.assumptions = [
         "the pool is modelled by queue + dispatcher holding one job + running set + Release handshake (GPool.tla checks that design separately)",
-        "handler durations (<= 400 ms each) are far below the Shutdown context (4 s): an expired context means requests were stranded, not slow",
+        "handler durations (<= 400 ms, one in four runs has a single 2.7 s handler) are below the Shutdown context (6 s): an expired context means requests were stranded, not slow",
         "server runs with the framework defaults ReadTimeout = 0, AcceptTimeout = 500 ms; clients send nothing after Shutdown starts",
     ]
     mc = {}
@@ -61,7 +61,7 @@ def run(ctx):
         n, q = configs[i % len(configs)]
         out = os.path.join(ctx.work, "sd%d.ndjson" % i)
         rc, so, se = sh([exe, "shutdown-trace", "-seed", str(ctx.seed * 1000 + i), "-n", str(per), "-pool", str(n), "-q", str(q),
-                         "-out", out], timeout=3400)
+                         "-ctx", "6000", "-out", out], timeout=3400)
         return (n, q), out, [int(x) for x in so.split()[-7:]]
 
     with ThreadPoolExecutor(max_workers=len(configs)) as ex:
